@@ -8,6 +8,7 @@ package decimal
 
 import (
 	"encoding/binary"
+	"errors"
 	"fmt"
 )
 
@@ -72,19 +73,52 @@ func (z *Decimal) GobDecode(buf []byte) error {
 		return fmt.Errorf("Decimal.GobDecode: encoding version %d not supported", buf[0])
 	}
 
+	if len(buf) < 6 {
+		return errors.New("Decimal.GobDecode: buffer too small")
+	}
+
 	oldPrec := z.prec
 	oldMode := z.mode
 
+	// decode and validate everything before modifying z
 	b := buf[1]
-	z.mode = RoundingMode((b >> 5) & 7)
-	z.acc = Accuracy((b>>3)&3) - 1
-	z.form = form((b >> 1) & 3)
-	z.neg = b&1 != 0
-	z.prec = binary.BigEndian.Uint32(buf[2:])
+	mode := RoundingMode((b >> 5) & 7)
+	acc := Accuracy((b>>3)&3) - 1
+	f := form((b >> 1) & 3)
+	prec := binary.BigEndian.Uint32(buf[2:])
+	if mode > ToPositiveInf || acc > Above || f > inf {
+		return errors.New("Decimal.GobDecode: invalid attributes")
+	}
 
-	if z.form == finite {
-		z.exp = int32(binary.BigEndian.Uint32(buf[6:]))
-		z.mant = z.mant.setBytes(buf[10:])
+	var exp int32
+	var mant dec
+	if f == finite {
+		if len(buf) < 10+_S || (len(buf)-10)%_S != 0 {
+			return errors.New("Decimal.GobDecode: invalid mantissa length")
+		}
+		exp = int32(binary.BigEndian.Uint32(buf[6:]))
+		mant = dec(nil).setBytes(buf[10:])
+		if len(mant) == 0 || mant[len(mant)-1] < _DB/10 {
+			return errors.New("Decimal.GobDecode: mantissa is not normalized")
+		}
+		for _, w := range mant {
+			if w >= _DB {
+				return errors.New("Decimal.GobDecode: invalid mantissa word")
+			}
+		}
+		if d := uint(len(mant))*_DW - mant.trailingZeroDigits(); prec == 0 || d > uint(prec) {
+			return errors.New("Decimal.GobDecode: mantissa does not fit precision")
+		}
+	}
+
+	z.mode = mode
+	z.acc = acc
+	z.form = f
+	z.neg = b&1 != 0
+	z.prec = prec
+	if f == finite {
+		z.exp = exp
+		z.mant = z.mant.set(mant)
 	}
 
 	if oldPrec != 0 {
